@@ -20,6 +20,10 @@ EXTRA_VALID = [
     'schema { query: Query mutation: Writes } type Query { q: Mutation } type Writes { w: Int } type Mutation { m: Int }',
     'schema { query: Root } type Root { a: Int } type Mutation { m: Int } extend schema { mutation: Writes } type Writes { w: Int }',
     'type Query { a: Int @deprecated(reason: "") b: E @deprecated } enum E { X @deprecated(reason: "") Y @deprecated(reason: "No longer supported") Z }',
+    # a finite default value OF a self-referential input type, on one of its own fields (directly, through a list, mutually)
+    'type Query { f(x: Filter): Int } input Filter { eq: Int not: Filter = {eq: 0, not: null} }',
+    'type Query { f(x: Filter): Int } input Filter { eq: Int and: [Filter!] = [{eq: 1, and: []}] }',
+    'type Query { f(x: A): Int } input A { b: B = {a: null} x: Int } input B { a: A = {x: 1, b: null} }',
     # an explicit null default is a default (distinct from no default), also on members of types that extensions rebuild
     'directive @d(o: String = null, i: In = null) on FIELD type Query { f(a: String = null, i: In = null, l: [Int!] = null, n: Int): Int } '
     'input In { x: Int = null y: [Int] = null z: In = null w: Int } extend type Query { g(b: ID = null): Int } extend input In { v: Float = null }',
@@ -32,6 +36,16 @@ INVALID_SDL = [
     ("unknown-type-reference", "type Query { a: Nope }"),
     ("unknown-argument-type", "type Query { a(x: Nope): Int }"),
     ("unknown-interface", "type Query implements Nope { a: Int }"),
+    ("implements-object", "type Query implements B { a: Int } type B { a: Int }"),
+    ("implements-scalar", "type Query implements S { a: Int } scalar S"),
+    ("implements-union", "type Query implements U { a: Int } type A { x: Int } union U = A"),
+    ("implements-input", "type Query implements I { a: Int } input I { x: Int }"),
+    # output types in input positions and the other way round
+    ("object-as-argument-type", "type Query { a(x: Query): Int }"),
+    ("object-as-argument-type-indirect", "type Query { t: T } type T { q(y: Query): Int }"),
+    ("object-as-input-field-type-with-default", "type Query { a(i: In): Int } input In { f: Query = 1 }"),
+    ("union-as-directive-argument-type", "type Query { a: Int } type A { x: Int } union U = A directive @d(u: U = 1) on FIELD"),
+    ("input-as-field-type", "type Query { a: In } input In { x: Int }"),
     ("unknown-union-member", "type Query { a: U } union U = Nope"),
     ("extension-of-unknown-type", "type Query { a: Int } extend type Nope { b: Int }"),
     ("extension-wrong-kind", "type Query { a: Int } extend interface Query { b: Int }"),
@@ -93,6 +107,30 @@ def split_into_extensions(doc, rnd):
     return doc
 
 
+def self_referential_default(sdl):
+    """some input type has a field WITH A DEFAULT whose type is an input type from which the first one can be reached again"""
+    from py_gql.lang import ast as A, parse
+    doc = parse(sdl, allow_type_system=True)
+    inputs = {}
+    for d in doc.definitions:
+        if isinstance(d, (A.InputObjectTypeDefinition, A.InputObjectTypeExtension)):
+            inputs.setdefault(d.name.value, []).extend(d.fields)
+
+    def named(t):
+        while not isinstance(t, A.NamedType):
+            t = t.type
+        return t.name.value
+
+    def reaches(src, dst, seen=()):
+        for f in inputs.get(src, []):
+            n = named(f.type)
+            if n == dst or (n in inputs and n not in seen and reaches(n, dst, seen + (n,))):
+                return True
+        return False
+    return any(f.default_value is not None and named(f.type) in inputs and (named(f.type) == t or reaches(named(f.type), t))
+               for t, fs in inputs.items() for f in fs)
+
+
 def check(tier, seed):
     from py_gql import build_schema
     from py_gql.exc import GraphQLError
@@ -138,7 +176,8 @@ def check(tier, seed):
                         run.violation("build_schema:accepts-valid-documents", "a valid type-system document is rejected: %s: %s" % (type(e).__name__, e), dict(w, error="%s: %s" % (type(e).__name__, e)), True)
                         continue
                     except Exception as e:
-                        run.violation("build_schema:only-schema-errors", "build_schema raised %r" % (e,), dict(w, exc=type(e).__name__), True)
+                        run.violation("build_schema:only-schema-errors", "build_schema raised %r" % (e,),
+                                      dict(w, exc=type(e).__name__, self_referential_default=self_referential_default(text)), True)
                         continue
                     nontrivial += 1
                     diff = S6.compare(want, S6.describe(schema), schema)
